@@ -10,8 +10,9 @@ R7 fully masked tiles are removed, not stored (shared with C15.R5)
 """
 import ast
 
-from sa import sym
-from sa.sym import show, num, num_value
+from sa import sym, boolalg
+from sa.teval import teval, UNKNOWN
+from sa.sym import show, num, num_value, atoms_of
 from sa.cfg import CFG
 from sa.model import callee_attr, dotted, own_calls, own_nodes, try_const
 
@@ -49,8 +50,12 @@ def run(run):
     _r7_masked(run)
 
 
-def _slice_half(node):
+def _slice_half(node, consts=None):
     """Normalise a ``slice(a, b)`` literal to 0 (first half [0:256]) or 1 ([256:512])."""
+    seen = 0
+    while isinstance(node, ast.Name) and consts and node.id in consts and seen < 4:
+        node = consts[node.id]
+        seen += 1
     if not (isinstance(node, ast.Call) and dotted(node.func) == "slice"):
         return None
     args = list(node.args)
@@ -82,7 +87,7 @@ def _tables(project):
     for name, v in consts.items():
         if isinstance(v, (ast.List, ast.Tuple)) and len(v.elts) == 4 and all(
                 isinstance(e, ast.Tuple) and len(e.elts) == 2 for e in v.elts):
-            rows = [(_slice_half(e.elts[0]), _slice_half(e.elts[1])) for e in v.elts]
+            rows = [(_slice_half(e.elts[0], consts), _slice_half(e.elts[1], consts)) for e in v.elts]
             if all(r[0] is not None and r[1] is not None for r in rows):
                 out[name] = (rows, v)
     return out
@@ -182,23 +187,46 @@ def _r2_selection(run):
                      [([("" if p else "not ") + show(c) for c, p in pc], show(t)) for pc, t, n in r2.returns], kind="format-parity")
 
 
+def _callback_eval(project):
+    """walk_callback with pos_children and the merger's own helper methods inlined, the constant-length loops
+    unrolled (the placement table has four entries of two indexers each)."""
+    f = project.fn(M + ".TileMerger.walk_callback")
+    ev = sym.make_evaluator(project, M, ["toasty.pyramid.pos_children"], no_inline=["_get_min_max_of_children"])
+    ev.self_class = M + ".TileMerger"
+    slices_t = ("attr", ("sym", "self"), "_slices")
+
+    def static_len(t):
+        if t == slices_t:
+            return 4
+        if t[0] == "item" and t[1] == slices_t:
+            return 2
+        return None
+    ev.static_len = static_len
+    ev.unroll = True
+    return f, ev, ev.run(f.node)
+
+
+def _is_buffer_term(t):
+    s = show(t)
+    return "_buf" in s or "make_maskable_buffer" in s
+
+
 def _r3_r5_callback(run):
     project = run.project
-    f = project.fn(M + ".TileMerger.walk_callback")
+    f, ev, r = _callback_eval(project)
     run.note_func(f)
-    ev = sym.make_evaluator(project, M, ["toasty.pyramid.pos_children"])
-    r = ev.run(f.node)
     pos = ("sym", f.params()[1])
+    slices_t = ("attr", ("sym", "self"), "_slices")
     reads = [e for e in r.events if e.kind == "call" and e.term[1][0] == "attr" and e.term[1][2] == "read_image"]
     want_children = []
     for k in range(4):
         dx, dy = k % 2, k // 2
         want_children.append(("nt", "Pos", (ev.expr("p.n + 1", {"p": pos}), ev.expr("2*p.x + %d" % dx, {"p": pos}), ev.expr("2*p.y + %d" % dy, {"p": pos}))))
     got_children = [e.term[2][0] if e.term[2] else None for e in reads]
-    if got_children != want_children:
+    if sorted(got_children, key=repr) != sorted(want_children, key=repr) or any(c[0] != "loop" for e in reads for c in e.pc):
         definite = len(got_children) == 4 and all(c is not None and c[0] == "nt" for c in got_children)
         (run.violated if definite else run.undecided)("C02.R3", f, reads[0].node if reads else None, "children read are %s; expected the four children (2x+dx, 2y+dy) of the "
-                     "callback's own position in the order k = 2*dy+dx" % [show(c)[:60] for c in got_children], kind="children-read")
+                     "callback's own position, unconditionally" % [show(c)[:60] for c in got_children], kind="children-read")
         return
     for e in reads:
         kw = dict(e.term[3])
@@ -206,42 +234,69 @@ def _r3_r5_callback(run):
             run.violated("C02.R3", f, e.node, "child tiles must be read with default='none' in the pyramid's default format (got %s)" %
                          {k: show(v) for k, v in kw.items()}, kind="child-read-mode")
             return
-    run.holds("C02.R3", f, reads[0].node, "img_k = read_image(child k), k = 2*dy+dx, for the callback's own position")
-    imgs = [e.term for e in reads]
-    # the zip pairing
-    loops = [(k, it, n) for k, it, n in r.loops if it[0] == "call" and it[1] == ("sym", "zip")]
+    run.holds("C02.R3", f, reads[0].node, "img_k = read_image(child k) for the four children of the callback's own position")
+    child_of = {e.term: want_children.index(e.term[2][0]) for e in reads}      # image term -> child index k = 2*dy+dx
+    imgs = sorted(child_of, key=lambda t: child_of[t])
     upd = [e for e in r.events if e.kind == "call" and e.term[1][0] == "attr" and e.term[1][2] == "update_into_maskable_buffer"]
-    if not loops or len(upd) != 1:
-        run.undecided("C02.R3", f, None, "merge loop `for slice, image in zip(...)` with one update call not found (loops=%d, updates=%d)" % (len(loops), len(upd)),
-                      kind="merge-loop-shape")
-        return
-    k, it, lnode = loops[0]
-    za = it[2]
-    slices_t = ("attr", ("sym", "self"), "_slices")
-    ok_zip = len(za) == 2 and za[0] == slices_t and za[1][0] in ("tuple", "list") and tuple(za[1][1]) == tuple(imgs)
-    if not ok_zip:
-        definite = len(za) == 2 and za[1][0] in ("tuple", "list") and sorted(za[1][1], key=repr) == sorted(imgs, key=repr)
-        definite = definite or (len(za) == 2 and za[0] != slices_t and za[0][0] == "sym")
-        (run.violated if definite else run.undecided)("C02.R3", f, lnode, "the placement table is zipped with %s; expected (self._slices, (img0, img1, img2, img3)) in child order" %
-                     [show(a)[:80] for a in za], kind="zip-pairing")
-        return
-    e = upd[0]
-    el = ("elem", it)
-    a = e.term[2]
     full = ("call", ("sym", "slice"), (sym.NONE,), ())
-    recv = e.term[1][1]
-    want_args = (("attr", ("sym", "self"), "_buf"), full, full, ("star", ("item", el, 0)))
-    conds = [c for c in e.pc if c[0] != "loop"]
-    not_none = sym.cmp("IsNot", ("item", el, 1), sym.NONE)
-    if recv != ("item", el, 1):
-        run.violated("C02.R3", f, e.node, "the update is applied by %s, not by the child image paired with the slice" % show(recv)[:80], kind="update-receiver")
-    elif tuple(a) != want_args:
-        run.violated("C02.R3", f, e.node, "update call arguments are %s; expected (self._buf, slice(None), slice(None), *table entry) "
-                     "= (buffer, all rows, all cols, by, bx)" % [show(x)[:60] for x in a], kind="update-args")
-    elif (not_none, True) not in conds:
-        run.violated("C02.R3", f, e.node, "children that do not exist are not skipped", kind="missing-child-guard")
+    if upd and not any(c[0] == "loop" for e in upd for c in e.pc):
+        # unrolled: one update per table entry
+        seen = {}
+        problems = []
+        for e in upd:
+            recv = e.term[1][1]
+            a = e.term[2]
+            if recv not in child_of:
+                problems.append((e, "update-receiver", "the update is applied by %s, not by one of the child images" % show(recv)[:80]))
+                continue
+            j = child_of[recv]
+            if len(a) != 5 or not _is_buffer_term(a[0]) or a[1] != full or a[2] != full:
+                problems.append((e, "update-args", "update call arguments are %s; expected (mosaic buffer, slice(None), slice(None), by, bx)" % [show(x)[:50] for x in a]))
+                continue
+            ks = [k for k in range(4) if (a[3], a[4]) == (("item", ("item", slices_t, k), 0), ("item", ("item", slices_t, k), 1))]
+            if not ks:
+                sw = [k for k in range(4) if (a[4], a[3]) == (("item", ("item", slices_t, k), 0), ("item", ("item", slices_t, k), 1))]
+                problems.append((e, "update-args", "child %d is placed at buffer indexers (%s, %s); expected the table entry's (rows, cols) = (by, bx)%s" % (
+                    j, show(a[3])[:50], show(a[4])[:50], " -- rows and columns are swapped" if sw else "")))
+                continue
+            k = ks[0]
+            if k != j:
+                problems.append((e, "zip-pairing", "child %d (2*dy+dx) is placed with table entry %d: the placement table is indexed by the child number" % (j, k)))
+                continue
+            guard = boolalg.implies(boolalg.conj(e.pc), ("op", "not", (sym.cmp("Is", recv, sym.NONE),)))
+            if guard is not True:
+                problems.append((e, "missing-child-guard", "children that do not exist are not skipped (child %d)" % j))
+                continue
+            other = [c for c in e.pc if c[0] != "loop" and not (set(child_of) & atoms_of(c[0])) and not _is_buffer_term(c[0])]
+            if other:
+                problems.append((e, "update-conditional", "child %d is only merged under %s" % (j, [show(c[0])[:60] for c in other])))
+                continue
+            seen[j] = seen.get(j, 0) + 1
+        for j in range(4):
+            if seen.get(j, 0) != 1 and not problems:
+                problems.append((upd[0], "children-merged", "child %d is merged %d times (expected once)" % (j, seen.get(j, 0))))
+        if problems:
+            for e, kind, msg in problems[:3]:
+                run.violated("C02.R3", f, e.node, msg, kind=kind)
+        else:
+            run.holds("C02.R3", f, upd[0].node, "slice k is applied to child k: child.update_into_maskable_buffer(buf, :, :, *slices[k]), existing children only")
     else:
-        run.holds("C02.R3", f, e.node, "slice k is applied to child k: child.update_into_maskable_buffer(buf, :, :, *slices[k])")
+        loops = [(k, it, n) for k, it, n in r.loops if it[0] == "call" and it[1] == ("sym", "zip")]
+        if not loops or len(upd) != 1:
+            run.undecided("C02.R3", f, None, "merge loop `for slice, image in zip(...)` with one update call not found (loops=%d, updates=%d)" % (len(loops), len(upd)),
+                          kind="merge-loop-shape")
+            return
+        k, it, lnode = loops[0]
+        za = it[2]
+        ok_zip = len(za) == 2 and za[0] == slices_t and za[1][0] in ("tuple", "list") and tuple(za[1][1]) == tuple(imgs)
+        if not ok_zip:
+            definite = len(za) == 2 and za[1][0] in ("tuple", "list") and sorted(za[1][1], key=repr) == sorted(imgs, key=repr)
+            definite = definite or (len(za) == 2 and za[0] != slices_t and za[0][0] == "sym")
+            (run.violated if definite else run.undecided)("C02.R3", f, lnode, "the placement table is zipped with %s; expected (self._slices, (img0, img1, img2, img3)) in child order" %
+                         [show(a)[:80] for a in za], kind="zip-pairing")
+            return
+        run.undecided("C02.R3", f, lnode, "merge loop could not be unrolled", kind="merge-loop-shape")
+        return
     # update_into_maskable_buffer parameter order (by, bx) = positions 4, 5
     g = project.fn("toasty.image.Image.update_into_maskable_buffer")
     run.note_func(g)
@@ -263,34 +318,133 @@ def _r3_r5_callback(run):
         run.violated("C02.R5", f, None, "%d write_image calls in the merge callback (expected one)" % len(wr), kind="write-count")
         return
     w = wr[0]
-    merged_want = ("call", ("attr", ("sym", "Image"), "from_array"),
-                   (("call", ("attr", ("sym", "self"), "_merger"), (("call", ("attr", ("attr", ("sym", "self"), "_buf"), "asarray"), (), ()),), ()),), ())
+    img = w.term[2][1] if len(w.term[2]) > 1 else None
+    img_ok = False
+    if img is not None and img[0] == "call" and img[1] == ("attr", ("sym", "Image"), "from_array") and len(img[2]) == 1:
+        m = img[2][0]
+        if m[0] == "call" and m[1] == ("attr", ("sym", "self"), "_merger") and len(m[2]) == 1:
+            b0 = m[2][0]
+            img_ok = b0[0] == "call" and b0[1][0] == "attr" and b0[1][2] == "asarray" and _is_buffer_term(b0[1][1]) and not b0[2]
+    all_missing = ("op", "and", tuple(sym.cmp("Is", im, sym.NONE) for im in imgs))
     if not w.term[2] or w.term[2][0] != pos:
         run.violated("C02.R5", f, w.node, "merged tile is written at %s, not at the callback's own position" % (show(w.term[2][0]) if w.term[2] else "?"),
                      kind="write-position")
-    elif len(w.term[2]) < 2 or w.term[2][1] != merged_want:
-        run.violated("C02.R5", f, w.node, "the image written is %s; expected Image.from_array(self._merger(self._buf.asarray()))" %
-                     (show(w.term[2][1])[:160] if len(w.term[2]) > 1 else "?"), kind="written-image")
+    elif not img_ok:
+        run.violated("C02.R5", f, w.node, "the image written is %s; expected Image.from_array(self._merger(<mosaic buffer>.asarray()))" %
+                     (show(img)[:160] if img is not None else "?"), kind="written-image")
     elif any(k == "format" for k, v in w.term[3]):
         run.violated("C02.R5", f, w.node, "parent written with an explicit format (children are read in the default format)", kind="write-format")
     else:
-        conds = [c for c in w.pc if c[0] != "loop"]
-        if conds:
-            run.violated("C02.R5", f, w.node, "the parent is only written under %s" % [show(c[0])[:80] for c in conds], kind="write-conditional")
+        cond = boolalg.conj(w.pc)
+        eq = boolalg.equiv(cond, ("op", "not", (all_missing,)))
+        if eq is True:
+            run.holds("C02.R5", f, w.node, "write_image(pos, Image.from_array(merger(buf.asarray())), ...) at the callback's position, unless all four children are missing")
+        elif eq is None:
+            run.undecided("C02.R5", f, w.node, "cannot compare the write condition %s" % show(cond)[:160], kind="write-conditional")
         else:
-            run.holds("C02.R5", f, w.node, "write_image(pos, Image.from_array(merger(buf.asarray())), ...) at the callback's position")
-    # early return only if all four children are missing
-    rets = [(pc, n) for pc, t, n in r.returns]
-    for pc, n in rets:
-        conds = [c for c in pc if c[0] != "loop"]
-        want = ("op", "and", tuple(sym.cmp("Is", im, sym.NONE) for im in imgs))
-        if not (len(conds) == 1 and conds[0] == (want, True)):
-            run.violated("C02.R5", f, n, "the callback returns without writing the parent under %s (only allowed when all four children are missing)"
-                         % [("" if p else "not ") + show(c)[:100] for c, p in conds], kind="early-return")
+            run.violated("C02.R5", f, w.node, "the parent is written under `%s`; it must be written exactly when at least one child exists; differs for: %s" % (
+                show(cond)[:200], boolalg.counterexample(cond, ("op", "not", (all_missing,)))), kind="write-conditional")
+
+
+def _r4_simulate(run):
+    """Exhaustive simulation of the (loop-free, helper-inlined) event trace of walk_callback over the finite
+    domain {buffer at entry: None | left dirty by the previous tile} x {child k: missing | present}: the buffer
+    handed to each update must have been cleared in this activation.  Returns False if the trace is not loop-free."""
+    import itertools
+    project = run.project
+    f, ev, r = _callback_eval(project)
+    buf0 = ("attr", ("sym", "self"), "_buf")
+    reads = [e.term for e in r.events if e.kind == "call" and e.term[1][0] == "attr" and e.term[1][2] == "read_image"]
+    rel = []
+    for e in r.events:
+        if e.kind == "store" and e.term[1][0] == buf0:
+            rel.append(("alloc", e))
+        elif e.kind == "call" and e.term[1][0] == "attr" and e.term[1][2] == "clear" and _is_buffer_term(e.term[1][1]):
+            rel.append(("clear", e))
+        elif e.kind == "call" and e.term[1][0] == "attr" and e.term[1][2] == "update_into_maskable_buffer":
+            rel.append(("update", e))
+        elif e.kind == "return":
+            rel.append(("return", e))
+    if not any(k == "update" for k, e in rel) or any(c[0] == "loop" for k, e in rel for c in e.pc) or len(reads) != 4:
+        return False
+
+    def hook(t, rec):
+        if t[0] == "call" and t[1][0] == "attr" and t[1][2] == "make_maskable_buffer":
+            return "FRESH"
+        return NotImplemented
+
+    findings = {}
+    unknown = None
+    for b0 in (None, "DIRTY"):
+        for present in itertools.product((False, True), repeat=4):
+            env = {buf0: b0}
+            for t, p in zip(reads, present):
+                env[t] = ("IMG" if p else None)
+            state = {"DIRTY": "Dirty"}
+            for kind, e in rel:
+                c = teval(boolalg.conj(e.pc), env, [hook])
+                if c is UNKNOWN:
+                    unknown = (e, "path condition %s" % show(boolalg.conj(e.pc))[:120])
+                    break
+                if not c:
+                    continue
+                if kind == "return":
+                    break
+                if kind == "alloc":
+                    v = teval(e.term[1][1], env, [hook])
+                    if v != "FRESH":
+                        unknown = (e, "allocated value %s" % show(e.term[1][1])[:100])
+                        break
+                    state["FRESH"] = "Fresh"
+                    continue
+                obj = teval(e.term[1][1] if kind == "clear" else e.term[2][0], env, [hook])
+                if obj is UNKNOWN:
+                    unknown = (e, "buffer object %s" % show(e.term[1][1] if kind == "clear" else e.term[2][0])[:100])
+                    break
+                if kind == "clear":
+                    if obj is None:
+                        findings.setdefault((e.line, "None"), (e, b0, present))
+                    else:
+                        state[obj] = "Clean"
+                else:
+                    st = "None" if obj is None else state.get(obj, "Dirty")
+                    if st not in ("Clean", "Merged"):
+                        findings.setdefault((e.line, st), (e, b0, present))
+                    elif obj is not None:
+                        state[obj] = "Merged"
+            if unknown:
+                break
+        if unknown:
+            break
+    if unknown:
+        run.undecided("C02.R4", f, unknown[0].node, "cannot evaluate the %s in the buffer simulation" % unknown[1], kind="buffer-test")
+        return True
+    why = {"Dirty": "still holds the pixels of the tile merged before by this process",
+           "Fresh": "is freshly allocated and was never cleared (make_maskable_buffer returns an uninitialised array)",
+           "None": "is None"}
+    if findings:
+        for (line, st), (e, b0, present) in sorted(findings.items(), key=lambda kv: kv[0]):
+            run.violated("C02.R4", f, e.node, "on some path the mosaic buffer reaches the merge (line %d) in state ['%s']: it %s (buffer at entry: %s, children present: %s); "
+                         "missing children and undefined pixels would then show stale data" % (
+                             line, st, why.get(st, st), "none yet" if b0 is None else "left by the previous tile", list(present)),
+                         kind="buffer-not-cleared", states=[st])
+    else:
+        run.holds("C02.R4", f, [e for k, e in rel if k == "update"][0].node,
+                  "buffer was cleared in this activation on every path reaching a merge (32 cases of entry buffer x present children)")
+    alloc = [e for k, e in rel if k == "alloc"]
+    for e in alloc:
+        v = e.term[1][1]
+        ok = v[0] == "call" and v[1][0] == "attr" and v[1][2] == "make_maskable_buffer" and [num_value(a) for a in v[2]] == [512, 512]
+        if not ok:
+            run.violated("C02.R4", f, e.node, "mosaic buffer allocated as %s, expected <child mode>.make_maskable_buffer(512, 512)" % show(v)[:120],
+                         kind="buffer-alloc")
+    return True
 
 
 def _r4_buffer(run):
     project = run.project
+    if _r4_simulate(run):
+        return
     f = project.fn(M + ".TileMerger.walk_callback")
     cfg = CFG(f.node)
 
